@@ -579,8 +579,12 @@ class Function:
                 names.add(n["member"])
         return names
 
-    def _writes_between(self, names, pd, pu, pos):
-        """is there a CFG element that may write one of `names` on a path from position pd (declaration) to position pu (use)?"""
+    RELEASERS = ("deallocate", "free", "realloc", "clear", "reset", "operator delete", "operator delete[]")
+
+    def _writes_between(self, names, pd, pu, pos, through_caller_pointer=False):
+        """is there a CFG element that may write one of `names` on a path from position pd (declaration) to position pu (use)?
+        through_caller_pointer: the value is read through a pointer parameter, whose target may be storage this function releases —
+        a release (deallocate / free / clear) in between ends the lifetime of what was read, so the read may not be moved past it"""
         def lhs_names(l):
             out = set()
             for x in self.walk(l):
@@ -608,6 +612,8 @@ class Function:
                     hit = bool(lhs_names(l) & names and self._lhs_root_names(l) & names)
                 elif "callee" in n or n.get("indirect"):
                     cal = n.get("callee") or {}
+                    if through_caller_pointer and (cal.get("name") in self.RELEASERS or str(cal.get("name", "")).startswith("cholmod_l_free")):
+                        hit = True
                     if cal.get("cls") and cal.get("cls") == self.cls and cal.get("mkind") not in ("ctor",) and not cal.get("isConst", False) \
                             and not cal.get("isStatic") and cal.get("name") not in ("allocate", "deallocate"):
                         hit = True
@@ -782,13 +788,15 @@ class Function:
                 uses = [x for x in self.walk() if self.nodes[x]["k"] == "DeclRefExpr" and self.nodes[x]["decl"].get("id") == d["id"]
                         and self.nodes[x]["decl"].get("kind") == "Var" and x != lhs_of_def]
                 ok = bool(uses)
+                via_param = any(self.nodes[y]["k"] == "DeclRefExpr" and self.nodes[y]["decl"].get("kind") == "ParmVar" and "*" in self.nodes[y]["decl"].get("type", "")
+                                for y in self.walk(init))
                 for u in uses:
                     pu = pos.get(u)
                     x_ = u
                     while pu is None and x_ >= 0:            # a node the normal form created: the position of the statement that holds it
                         x_ = self.parent[x_]
                         pu = pos.get(x_) if x_ >= 0 else None
-                    if pu is None or self._writes_between(names, pos[def_node], pu, pos):
+                    if pu is None or self._writes_between(names, pos[def_node], pu, pos, through_caller_pointer=via_param):
                         ok = False
                         break
                 if not ok:
